@@ -85,8 +85,9 @@ def parse_tables(lenient=False):
         args = [a.strip() for a in split_top(src[m.end():close])]
         consumed.append((m.start(), close + 1))
         pos = close + 1
-        ty = re.sub(r'\s*<\s*config_t\s*>\s*$', '', args[0])
-        if not re.fullmatch(IDENT, ty):
+        ty = re.sub(r'\s*<\s*config_t\s*>', '', args[0])     # `S<config_t>` and `S<config_t>::E`
+        if not re.fullmatch(IDENT + r'(?:::' + IDENT + r')?', ty) or \
+                ('::' in ty and m.group(1) != 'ENUM_TABLE'):
             raise TErr(f'structs.ipp: unexpected table type {args[0]!r}')
         ents = []
         for a in args[1:]:
@@ -239,7 +240,9 @@ def parse_struct(name, table_structs, table_enums):
         me = re.fullmatch(r'enum\s+(' + IDENT + r')\s*\{(.*)\}\s*(' + IDENT + r')\s*(=\s*.+)?', st, flags=re.S)
         if me:
             local_enums.append((me.group(1), parse_enumerators(me.group(2), f'{name}::{me.group(1)}')))
-            fields.append((me.group(3), f'{name}::{me.group(1)}', ('opaque', f'enum {me.group(1)}')))
+            qual = f'{name}::{me.group(1)}'
+            fields.append((me.group(3), qual,
+                           ('enum', qual) if qual in table_enums else ('opaque', f'enum {me.group(1)}')))
             continue
         mf = re.fullmatch(r'(?P<ty>.+?)\s+(?P<name>' + IDENT + r')\s*(=\s*(?P<init>.+)|\{(?P<binit>.*)\})?',
                           st, flags=re.S)
@@ -295,7 +298,7 @@ def parse_params_cpp():
         first = split_top(m.group(1))[0].strip()
         if first == '__VA_ARGS__':        # body of the ALPAQA_SET_PARAM_INST_INT macro itself
             continue
-        inst.append(re.sub(r'\s*<\s*config_t\s*>\s*$', '', first))
+        inst.append(re.sub(r'\s*<\s*config_t\s*>', '', first))
     _, body = cp.find_region(src, r'void\s+ALPAQA_EXPORT\s+set_param\s*\(\s*bool\s*&\s*b')
     bools = []
     for m in re.finditer(r'if\s*\(((?:\s*s\.value\s*==\s*"[^"]*"\s*(?:\|\|)?)+)\)\s*b\s*=\s*(true|false)\s*;', body):
@@ -315,7 +318,7 @@ def parse_duration_hpp():
         raise TErr('duration-parse.hpp: trim / unit-stop character sets not found')
     units = []
     rx = re.compile(r'if\s*\(((?:\s*units\s*==\s*"[^"]*"\s*(?:\|\|)?|\s*units\.empty\(\)\s*(?:\|\|)?)+)\)\s*'
-                    r't\s*\+=\s*cast\s*\(\s*duration\s*<\s*double\s*,\s*std::ratio\s*<\s*([\d\']+)\s*,\s*([\d\']+)\s*>\s*>'
+                    r'(?:t\s*\+=\s*cast|add)\s*\(\s*duration\s*<\s*double\s*,\s*std::ratio\s*<\s*([\d\']+)\s*,\s*([\d\']+)\s*>\s*>'
                     r'\s*\{\s*value\s*\}\s*\)\s*;')
     for m in rx.finditer(body):
         num = int(m.group(2)); den = int(m.group(3))
@@ -326,11 +329,11 @@ def parse_duration_hpp():
             part = part.strip()
             mm = re.fullmatch(r'units\s*==\s*"([^"]*)"', part)
             units.append((mm.group(1) if mm else '', ns))
-    n_branches = len(re.findall(r't\s*\+=', body))
+    n_branches = len(re.findall(r'duration\s*<\s*double\s*,\s*std::ratio', body))
     if not units or n_branches != len(rx.findall(body)):
         raise TErr('duration-parse.hpp: unit chain not understood')
-    if not re.search(r'return\s+std::chrono::round\s*<\s*Duration\s*>\s*\(\s*t\s*\)', body):
-        raise TErr('duration-parse.hpp: `cast` is no longer std::chrono::round<Duration>')
+    if len(re.findall(r'std::chrono::round\s*<\s*Duration\s*>\s*\(', body)) != 1:
+        raise TErr('duration-parse.hpp: the conversion is no longer one std::chrono::round<Duration>')
     return m1.group(1), m2.group(1), units
 
 
@@ -456,7 +459,7 @@ def emit_cxx(d):
     o.append(' \\\n'.join(f'    X({i})' for i in inst))
     o.append('')
     o.append('#define C18_TOP_ENUMS(X) \\')
-    o.append(' \\\n'.join(f'    X({e["name"]})' for e in d['enums'] if e['name'] in d['inst']))
+    o.append(' \\\n'.join(f'    X({e["name"]})' for e in d['enums'] if e['name'] in d['inst'] and '::' not in e['name']))
     o.append('')
     return '\n'.join(o)
 
@@ -472,7 +475,17 @@ def gather(lenient=False):
     if len(set(tstructs)) != len(tstructs) or len(set(tenums)) != len(tenums):
         raise TErr('structs.ipp: a type has two tables (would not compile)')
     structs = [parse_struct(t, set(tstructs), set(tenums)) for t in tstructs]
-    enums = [parse_enum(t) for t in tenums]
+    sdef = {s['name']: s for s in structs}
+    enums = []
+    for t in tenums:
+        if '::' in t:                       # enum nested in a parameter struct
+            sn, en = t.split('::')
+            le = dict(sdef[sn]['local_enums']) if sn in sdef else {}
+            if en not in le:
+                raise TErr(f'ENUM_TABLE({t}): no such nested enum (would not compile)')
+            enums.append({'name': t, 'file': sdef[sn]['file'], 'enumerators': le[en]})
+        else:
+            enums.append(parse_enum(t))
     if lenient:
         try:
             inst, bools = parse_params_cpp()
